@@ -20,6 +20,8 @@ ASSUMPTIONS = ['a corrupted copy that still has valid CRCs everywhere (flip insi
                'schedules and clocks play no role: the deciding dimension is the corruption fault']
 CHUNK = 4
 BUDGET = {'quick': 40, 'thorough': 600}
+#: one run makes hundreds of evaluations (each a freshly sourced, altered, delivered bundle): longer per-run watchdog
+WATCHDOG_S = 900
 
 
 def gen(ch, tier):
